@@ -159,9 +159,31 @@ pub fn plan_lifecycle_lp(w: &World, knobs: &Knobs, actor: &mut Actor, l: &Ledger
             let others: Vec<&Actor> = w.actors.iter().filter(|a| a.role == actor.role && a.wallet != actor.wallet).collect();
             if !others.is_empty() {
                 let to = others[rng.idx(others.len())];
-                let dest = ix::ata(&to.wallet, &pk.mint, &pk.nft_program);
+                let mut dest = ix::ata(&to.wallet, &pk.mint, &pk.nft_program);
                 let mut ixs = Vec::new();
-                if !l.exists(&dest) {
+                let style = rng.below(4);
+                if style >= 2 {
+                    // not an associated token account: a bare token account (base length, no extensions) of the
+                    // receiver (style 2) or of the sender itself (style 3, plain token transfer of an unlocked position)
+                    let holder = if style == 2 { to.wallet } else { actor.wallet };
+                    dest = crate::world::new_key(rng);
+                    ixs.push(ix::sys_create_account(&actor.wallet, &dest, crate::world::rent_min(165), 165, &pk.nft_program));
+                    ixs.push(ix::from_sol(if pk.nft_program == ix::tok() {
+                        spl_token::instruction::initialize_account3(&ix::tok(), &dest, &pk.mint, &holder).unwrap()
+                    } else {
+                        spl_token_2022::instruction::initialize_account3(&ix::tok22(), &dest, &pk.mint, &holder).unwrap()
+                    }));
+                    if style == 3 {
+                        ixs.push(ix::from_sol(if pk.nft_program == ix::tok() {
+                            spl_token::instruction::transfer_checked(&ix::tok(), &pk.token_account, &pk.mint, &dest, &actor.wallet, &[], 1, 0).unwrap()
+                        } else {
+                            spl_token_2022::instruction::transfer_checked(&ix::tok22(), &pk.token_account, &pk.mint, &dest, &actor.wallet, &[], 1, 0).unwrap()
+                        }));
+                        flow.push((Tx { ixs }, "move_position_token_to_bare_account".into()));
+                        actor.rng = rng.clone();
+                        return flow;
+                    }
+                } else if !l.exists(&dest) {
                     ixs.push(ix::from_sol(spl_associated_token_account::instruction::create_associated_token_account(&actor.wallet, &to.wallet, &pk.mint, &pk.nft_program)));
                 }
                 ixs.push(ix::mk(
